@@ -908,9 +908,9 @@ type c14Env struct {
 	wedges  map[string]int
 	panicSeen map[string]bool
 	recent  []string
-	peerCtl chan struct{}
-	peerWG  sync.WaitGroup
-	peerOn  atomic.Bool
+	peerMu   sync.Mutex
+	peerConn *grpc.ClientConn
+	peerStop chan struct{}
 }
 
 func (e *c14Env) connect() error {
@@ -922,6 +922,16 @@ func (e *c14Env) connect() error {
 	if err != nil {
 		return err
 	}
+	pc, err := vfnDial(e.w.ports.Priv)
+	if err != nil {
+		return err
+	}
+	e.peerMu.Lock()
+	if e.peerConn != nil {
+		e.peerConn.Close()
+	}
+	e.peerConn = pc
+	e.peerMu.Unlock()
 	ctrl, err := vfnDial("127.0.0.1:" + e.w.ports.Ctrl)
 	if err != nil {
 		return err
@@ -967,12 +977,17 @@ func (e *c14Env) start() error {
 
 // honestStep plays member 1 of chain R: a valid partial for the round after the node's head.
 func (e *c14Env) honestStep() {
+	e.peerMu.Lock()
+	defer e.peerMu.Unlock()
+	if e.peerConn == nil {
+		return
+	}
 	ctx, cancel := context.WithTimeout(context.Background(), 3*time.Second)
 	defer cancel()
 	md := &drand.Metadata{NodeVersion: c14Version(), BeaconID: common.DefaultBeaconID}
 	// the partial cache is keyed by (round, previous signature) also for unchained schemes: send what a
 	// real member sends, i.e. the signature of the node's last beacon as previous_signature
-	last, err := drand.NewPublicClient(e.tgt.conn).PublicRand(ctx, &drand.PublicRandRequest{Metadata: md})
+	last, err := drand.NewPublicClient(e.peerConn).PublicRand(ctx, &drand.PublicRandRequest{Metadata: md})
 	if err != nil {
 		return
 	}
@@ -984,7 +999,7 @@ func (e *c14Env) honestStep() {
 	if err != nil {
 		return
 	}
-	_, _ = drand.NewProtocolClient(e.tgt.conn).PartialBeacon(ctx, &drand.PartialBeaconPacket{Round: next, PreviousSignature: last.Signature, PartialSig: sig, Metadata: md})
+	_, _ = drand.NewProtocolClient(e.peerConn).PartialBeacon(ctx, &drand.PartialBeaconPacket{Round: next, PreviousSignature: last.Signature, PartialSig: sig, Metadata: md})
 	e.run.Count("honest_partials", 1)
 }
 
@@ -1216,6 +1231,21 @@ func c14Body(t *testing.T, run *vfRun, cleanupsP *[]func()) {
 		}
 	}()
 	run.Note("request log: " + reqLog.Name())
+	// the honest peer keeps the chain moving also while a request of the harness is waiting for a round
+	e.peerStop = make(chan struct{})
+	go func() {
+		tk := time.NewTicker(250 * time.Millisecond)
+		defer tk.Stop()
+		for {
+			select {
+			case <-e.peerStop:
+				return
+			case <-tk.C:
+				e.honestStep()
+			}
+		}
+	}()
+	defer close(e.peerStop)
 	replay, doReplay := vfReplayCase()
 
 	states := []string{"running", "fresh", "stopped"}
@@ -1267,7 +1297,7 @@ func c14Body(t *testing.T, run *vfRun, cleanupsP *[]func()) {
 		}
 	}
 	// sequences of 1-5 requests drawn from the reduced corpus, probes after the sequence
-	nseq := vfPick(150, 1500)
+	nseq := vfPick(250, 1500)
 	var pool []c14Req
 	for _, st := range states {
 		pool = append(pool, w.corpus(st, rng, false)...)
